@@ -8,7 +8,20 @@ pub struct Spy;
 
 thread_local! {
     static WATCH: Cell<bool> = const { Cell::new(false) };
-    static CAPTURED: RefCell<Vec<Vec<u8>>> = const { RefCell::new(Vec::new()) };
+    static CAPTURED: RefCell<Vec<(usize, Vec<u8>)>> = const { RefCell::new(Vec::new()) };
+    static TRACK: Cell<bool> = const { Cell::new(false) };
+    static ALLOCS: RefCell<Vec<(usize, usize)>> = const { RefCell::new(Vec::new()) };
+}
+
+fn tracking() -> bool {
+    TRACK.try_with(|w| w.get()).unwrap_or(false)
+}
+fn note_alloc(ptr: *mut u8, size: usize) {
+    if !ptr.is_null() && tracking() {
+        let _ = TRACK.try_with(|w| w.set(false));
+        let _ = ALLOCS.try_with(|c| c.borrow_mut().push((ptr as usize, size)));
+        let _ = TRACK.try_with(|w| w.set(true));
+    }
 }
 
 fn watching() -> bool {
@@ -19,13 +32,15 @@ unsafe fn capture(ptr: *mut u8, size: usize) {
     // the copy itself allocates: switch the flag off meanwhile
     let _ = WATCH.try_with(|w| w.set(false));
     let bytes = unsafe { std::slice::from_raw_parts(ptr, size) }.to_vec();
-    let _ = CAPTURED.try_with(|c| c.borrow_mut().push(bytes));
+    let _ = CAPTURED.try_with(|c| c.borrow_mut().push((ptr as usize, bytes)));
     let _ = WATCH.try_with(|w| w.set(true));
 }
 
 unsafe impl GlobalAlloc for Spy {
     unsafe fn alloc(&self, layout: Layout) -> *mut u8 {
-        unsafe { System.alloc(layout) }
+        let p = unsafe { System.alloc(layout) };
+        note_alloc(p, layout.size());
+        p
     }
     unsafe fn dealloc(&self, ptr: *mut u8, layout: Layout) {
         if watching() {
@@ -34,14 +49,18 @@ unsafe impl GlobalAlloc for Spy {
         unsafe { System.dealloc(ptr, layout) }
     }
     unsafe fn alloc_zeroed(&self, layout: Layout) -> *mut u8 {
-        unsafe { System.alloc_zeroed(layout) }
+        let p = unsafe { System.alloc_zeroed(layout) };
+        note_alloc(p, layout.size());
+        p
     }
     unsafe fn realloc(&self, ptr: *mut u8, layout: Layout, new_size: usize) -> *mut u8 {
         if watching() {
             // the old block may be released by a move: record it
             unsafe { capture(ptr, layout.size()) };
         }
-        unsafe { System.realloc(ptr, layout, new_size) }
+        let p = unsafe { System.realloc(ptr, layout, new_size) };
+        note_alloc(p, new_size);
+        p
     }
 }
 
@@ -52,7 +71,32 @@ pub fn watch<R>(f: impl FnOnce() -> R) -> (R, Vec<Vec<u8>>) {
     let r = f();
     WATCH.with(|w| w.set(false));
     let blocks = CAPTURED.with(|c| std::mem::take(&mut *c.borrow_mut()));
+    (r, blocks.into_iter().map(|(_, b)| b).collect())
+}
+
+/// Like [`watch`], but every freed block comes with its address.
+pub fn watch_addr<R>(f: impl FnOnce() -> R) -> (R, Vec<(usize, Vec<u8>)>) {
+    CAPTURED.with(|c| c.borrow_mut().clear());
+    WATCH.with(|w| w.set(true));
+    let r = f();
+    WATCH.with(|w| w.set(false));
+    let blocks = CAPTURED.with(|c| std::mem::take(&mut *c.borrow_mut()));
     (r, blocks)
+}
+
+/// Run `f` recording (address, size) of every block this thread allocates meanwhile.
+pub fn track_allocs<R>(f: impl FnOnce() -> R) -> (R, Vec<(usize, usize)>) {
+    ALLOCS.with(|c| c.borrow_mut().clear());
+    TRACK.with(|w| w.set(true));
+    let r = f();
+    TRACK.with(|w| w.set(false));
+    let a = ALLOCS.with(|c| std::mem::take(&mut *c.borrow_mut()));
+    (r, a)
+}
+
+/// Read a live block (the caller knows it is still allocated).
+pub unsafe fn peek(addr: usize, size: usize) -> Vec<u8> {
+    unsafe { std::slice::from_raw_parts(addr as *const u8, size) }.to_vec()
 }
 
 pub fn contains(hay: &[u8], needle: &[u8]) -> bool {
